@@ -577,6 +577,9 @@ def run(rep):
         texts.append(bytes(t).decode('latin-1'))
     for _ in range(n // 3):
         texts.append(bytes(rng.randrange(256) for _ in range(rng.randrange(0, 60))).decode('latin-1'))
+    # the integer-literal family at token level too (value, consumed bytes and diagnostics of every INT / unit token)
+    ilit = conffam.int_unit_cases(rep.tier)
+    texts += [c[4] for c in ilit[::max(1, len(ilit) // (400 if rep.tier == 'quick' else 20000))]]
     recs = lex_records(h, henv, texts)
     dreq, idx = [], []
     nfault = 0
